@@ -211,15 +211,39 @@ func clManifestsAfterSuccess(c *Ctx) {
 		label string
 	}
 	var writes []wsite
+	isWriteFile := func(in ssa.Instruction) bool {
+		cc := callOf(in)
+		if cc == nil || cc.StaticCallee() == nil {
+			return false
+		}
+		n := cc.StaticCallee().String()
+		return n == "io/ioutil.WriteFile" || n == "os.WriteFile"
+	}
+	family := map[*ssa.Function]bool{}
+	for _, f := range WithAnon(fn) {
+		family[f] = true
+	}
+	helperOf := map[ssa.Instruction]*ssa.Function{}
 	for _, f := range WithAnon(fn) {
 		for _, in := range p.Info(f).Instrs {
+			if isWriteFile(in) {
+				writes = append(writes, wsite{f, in, pathLabel(callOf(in).Args[0])})
+				continue
+			}
+			// a shared (multi-call-site) helper that writes manifests: its call stands for the writes inside
 			cc := callOf(in)
 			if cc == nil || cc.StaticCallee() == nil {
 				continue
 			}
-			n := cc.StaticCallee().String()
-			if n == "io/ioutil.WriteFile" || n == "os.WriteFile" {
-				writes = append(writes, wsite{f, in, pathLabel(cc.Args[0])})
+			h := cc.StaticCallee()
+			if h.Blocks == nil || h.Package() == nil || h.Package().Pkg.Path() != modPath || family[h] || p.helperCall(in) != nil {
+				continue
+			}
+			for _, hin := range p.Info(h).Instrs {
+				if isWriteFile(hin) {
+					writes = append(writes, wsite{f, in, pathLabel(callOf(hin).Args[0])})
+					helperOf[in] = h
+				}
 			}
 		}
 	}
@@ -259,7 +283,22 @@ func clManifestsAfterSuccess(c *Ctx) {
 	cj := find(fn, "checksums.json")
 	if c.Check(fj != nil && cj != nil, fn, nil, "data manifests are written", "StoreToDisk no longer writes data/files.json and data/checksums.json") {
 		c.Check(guardedByNilOf(fn, fj, vs[0]), fn, fj, "data/files.json only after the scan succeeded", "the file list is written although the scan failed (or before it ran): a partial backup looks complete to LoadFromDisk")
-		c.Check(guardedByNilOf(fn, cj, fj), fn, cj, "data/checksums.json only after files.json was written", "checksums are written although the file list could not be")
+		if h := helperOf[cj]; h != nil && cj == fj {
+			// both manifests are written by one helper: the ordering is decided inside it
+			var hf, hc ssa.Instruction
+			for _, hin := range p.Info(h).Instrs {
+				if isWriteFile(hin) {
+					if strings.HasSuffix(pathLabel(callOf(hin).Args[0]), "files.json") {
+						hf = hin
+					} else if strings.HasSuffix(pathLabel(callOf(hin).Args[0]), "checksums.json") {
+						hc = hin
+					}
+				}
+			}
+			c.Check(hf != nil && hc != nil && guardedByNilOf(h, hc, hf), h, hc, "checksums.json only after files.json was written", "checksums are written although the file list could not be")
+		} else {
+			c.Check(guardedByNilOf(fn, cj, fj), fn, cj, "data/checksums.json only after files.json was written", "checksums are written although the file list could not be")
+		}
 		// checksums sampled before the manifest is written
 	}
 	// delta manifests (in a deferred closure that performs the terminate handshake)
@@ -299,7 +338,7 @@ func clManifestsAfterSuccess(c *Ctx) {
 			})
 		}
 		c.Check(nilErr(dfj), f, dfj, cnt.in(f, "delta/files.json only when scan and handshake succeeded"), "the delta manifest is written although the backup already failed: LoadFromDisk would accept the partial delta")
-		if dcj != nil {
+		if dcj != nil && !(helperOf[dcj] != nil && dcj == dfj) {
 			c.Check(guardedByNilOf(f, dcj, dfj), f, dcj, cnt.in(f, "delta/checksums.json only after delta/files.json was written"), "")
 		}
 	}
